@@ -21,7 +21,7 @@ func init() {
 		Level: "other",
 		Explanation: "Decided (structural clauses; the property as a whole quantifies over run-time XML and is not decided): (R16.1) no DOCX/ODT function rebuilds ordered inline content kind by kind from >= 2 child-content fields of the same unmarshalled element (that loses the interleaving of the source); (R16.2) every loop over a row's cells that keeps a column cursor advances it on every path to the next cell, and the DOCX fillers step by the cell's own span; (R16.3) list-item, list and run/inline text builders reach the loop over each child collection on every path to their return; (R16.4) every text-carrying child collection declared by the structs the body is decoded into is read somewhere; (R16.5) the hand-written ordered decoders dispatch on every text-carrying inline element of the content model and on no deleted-text element; (R16.6) a streaming token walk that records elements by name consumes their subtree or tests the nesting depth. " +
 			"Not decided: that the counting second pass and the unmarshalled slices agree on which elements are body elements beyond the depth condition, heading levels through style inheritance, vertical-merge row spans, header/footer leakage.",
-		Rules: []func(*eng.Ctx){deleteInRangeRule("R16.DR", "docx", "odt"), ruleCellAtColumnBySpans, ruleTableCellOnOneLine, ruleVMergeSpellings, ruleMergeStartSurvives, ruleContentStylesWin, ruleRenderLeavesReader, loopVarRule("R16.LV", "docx", "odt"), ruleOrderLoss, ruleGridAdvance, ruleDrainChildren, ruleDeclaredChildRead, ruleInlineDispatch, ruleStreamDepth, roleRule("R16.R", "docx", "odt"), ruleResolvedStyleReadOnly, ruleBlockContentModel, ruleFreshDecodeTargetDoc, ruleCharDataUnconditional, ruleFlushBeforeElement, ruleInlineContainersRecursive, ruleDecodedElementsAllKept, ruleListLevelsZeroToEight, ruleLevelByILvl},
+		Rules: []func(*eng.Ctx){deleteInRangeRule("R16.DR", "docx", "odt"), ruleCellAtColumnBySpans, ruleVerticalMergesByGridColumn, ruleTableCellOnOneLine, ruleVMergeSpellings, ruleMergeStartSurvives, ruleContentStylesWin, ruleRenderLeavesReader, loopVarRule("R16.LV", "docx", "odt"), ruleOrderLoss, ruleGridAdvance, ruleDrainChildren, ruleDeclaredChildRead, ruleInlineDispatch, ruleStreamDepth, roleRule("R16.R", "docx", "odt"), ruleResolvedStyleReadOnly, ruleBlockContentModel, ruleFreshDecodeTargetDoc, ruleCharDataUnconditional, ruleFlushBeforeElement, ruleInlineContainersRecursive, ruleDecodedElementsAllKept, ruleListLevelsZeroToEight, ruleLevelByILvl},
 	})
 }
 
